@@ -22,6 +22,19 @@ pub trait NamingContext {
 
     /// Apply serde naming convention transformations
     fn apply_naming_convention(&self, field_name: &str, convention: RenameRule) -> String {
+        if matches!(convention, RenameRule::CamelCase) {
+            // RenameRule::apply_to_field byte-slices the first character of the PascalCase form
+            // and panics when it is empty (name made of underscores) or not ASCII.
+            let pascal = RenameRule::PascalCase.apply_to_field(field_name);
+            return match pascal.chars().next() {
+                Some(first) => {
+                    let mut camel = first.to_ascii_lowercase().to_string();
+                    camel.push_str(&pascal[first.len_utf8()..]);
+                    camel
+                }
+                None => pascal,
+            };
+        }
         convention.apply_to_field(field_name)
     }
 
